@@ -241,6 +241,8 @@ PRELUDE = r'''
 #![allow(dead_code, unused_variables, non_camel_case_types, unused_imports)]
 use core::fmt;
 pub struct NoFmt;
+macro_rules! only { ($($n:ident $t:ident),*) => { $( pub struct $n; impl fmt::$t for $n { fn fmt(&self, f: &mut fmt::Formatter<'_>) -> fmt::Result { f.write_str("o") } } )* } }
+only!(OnlyDisplay Display, OnlyLowerHex LowerHex, OnlyUpperHex UpperHex, OnlyOctal Octal, OnlyBinary Binary, OnlyLowerExp LowerExp, OnlyUpperExp UpperExp);
 pub fn need_Display<X: fmt::Display>() {}
 pub fn need_Debug<X: fmt::Debug>() {}
 pub fn need_LowerHex<X: fmt::LowerHex>() {}
@@ -278,6 +280,14 @@ def compile_check(res, rng, tier):
         ("shared-attr-named-hex", "LowerHex", "#[lower_hex(\"{_variant}/{x:x}\")] enum S<T, U, V> { #[lower_hex(\"a\")] A { x: T }, #[lower_hex(\"b\")] B { x: T, p: core::marker::PhantomData<(U, V)> } }", "u8, NoFmt, NoFmt"),
         ("shared-attr-and-variant-attr", "Display", "#[display(\"{_variant}|{_1:?}\")] enum S<T, U, V> { #[display(\"{_0}\")] A(T, U), #[display(\"b\")] B(u8, U, core::marker::PhantomData<V>) }", "u8, u8, NoFmt"),
     ]
+    # implicit delegation of a single-field variant under a wrapping enum-level format, and of a newtype, for every trait:
+    # the bound is the derived trait on the field's type, and a type implementing only that trait must be enough
+    for tr, an in (("Display", "display"), ("LowerHex", "lower_hex"), ("UpperHex", "upper_hex"), ("Octal", "octal"), ("Binary", "binary"),
+                   ("LowerExp", "lower_exp"), ("UpperExp", "upper_exp")):
+        only = f"Only{tr}"
+        fixed.append((f"wrapped-implicit-{an}", tr, f"#[{an}(\"<{{_variant}}>\")] enum S<T, U, V> {{ A(T), #[{an}(\"b\")] B(core::marker::PhantomData<(U, V)>) }}", f"{only}, NoFmt, NoFmt"))
+        fixed.append((f"wrapped-implicit-with-arg-{an}", tr, f"#[{an}(\"{{_variant}} {{}}\", 1)] enum S<T, U, V> {{ A(T), B(U), #[{an}(\"c\")] C(V) }}", f"{only}, {only}, NoFmt"))
+        fixed.append((f"newtype-implicit-{an}", tr, "struct S<T, U, V>(T, core::marker::PhantomData<(U, V)>);" if False else f"enum S<T, U, V> {{ A(T), #[{an}(\"b\")] B(core::marker::PhantomData<(U, V)>) }}", f"{only}, NoFmt, NoFmt"))
     for j, (key, derive, src, inst) in enumerate(fixed):
         i = 100000 + j
         cf.add(i, f"#[derive(derive_more::{derive})] {src}\npub fn chk() {{ need_{derive}::<S<{inst}>>(); }}")
